@@ -72,14 +72,14 @@ empty or starts with `/` -/
 def wfParts (p : Parts) : Bool :=
   wfNetloc p.netloc && (p.path == [] || p.path.head? == some '/')
 
-/-- additional demands of the suffix-aware theorems: a plain host has no `%` (CPython's
-`.hostname` does not lower-case what follows a `%`), and a bracketed host is, once
-lower-cased, made of hex digits and colons only (so that `is_special_host(parsed.hostname)`
-recognises it: no zone id, no embedded IPv4) -/
+/-- a plain host has no `%` (CPython's `.hostname` does not lower-case what follows a `%`, the
+suffix-aware mode lower-cases the whole host): the suffix-aware statements in CPython's
+vocabulary (`B.hostname == A.hostname`) need it, the others need C08's case clause
+(`SplitCaseInv`) where it fails.  Nothing is demanded of a bracketed literal: stems.py never
+suffix-processes it (zone ids, embedded IPv4, IPvFuture included) -/
 def wfHostSA (netloc : Str) : Bool :=
   match specHost netloc with
-  | '[' :: r =>
-    r.dropLast.contains ':' && (lower r.dropLast).all (fun c => isHexDigit c || c == ':')
+  | '[' :: _ => true
   | h => noneOf ['%'] h
 
 /-- no `|` anywhere (the hypothesis of C12) -/
@@ -107,10 +107,16 @@ def rejoin (domain suffix : Str) : Str :=
 section
 variable (splitSuffix : Str → Option (Str × Str))
 
+/-- the public-suffix split of the host of a netloc: a bracketed IP literal has none (whatever
+`split_suffix` would find at the end of a zone id or of an IPvFuture text: `[fe80::1%eth0.com]`,
+`[v1.a.com]`), any other host has what `split_suffix` answers -/
+def hostSplit (netloc : Str) : Option (Str × Str) :=
+  if (specHost netloc).head? == some '[' then none else splitSuffixParsed splitSuffix netloc
+
 /-- the host after the round trip: lower-cased by the suffix-aware mode when the host has a
-public suffix, untouched otherwise -/
+public suffix (never so for a bracketed literal), untouched otherwise -/
 def expectedHost (sa : Bool) (netloc : Str) : Str :=
-  if sa && (splitSuffixParsed splitSuffix netloc).isSome then lower (specHost netloc)
+  if sa && (hostSplit splitSuffix netloc).isSome then lower (specHost netloc)
   else specHost netloc
 
 /-- the components `lru_to_url` must hand to `urlunsplit` -/
@@ -123,15 +129,23 @@ def SplitRejoins (netloc : Str) : Prop :=
   ∀ d s, splitSuffix (pyHostname netloc) = some (d, s) → rejoin d s = lower (pyHostname netloc)
 
 /-- the form the theorems use: the suffix parts re-join to the lower-cased host of the netloc
-(follows from `SplitRejoins` on the grammar: `Props.C12.splitRejoins_of_c08`) -/
+(follows from `SplitRejoins` on the grammar: `Props.C12.splitRejoins_of_c08`,
+`Props.C12.splitLaw_of_class`; says nothing about a bracketed literal: `hostSplit` is `none`) -/
 def SplitLaw (n : Str) : Prop :=
-  ∀ d s, splitSuffixParsed splitSuffix n = some (d, s) → rejoin d s = lower (specHost n)
+  ∀ d s, hostSplit splitSuffix n = some (d, s) → rejoin d s = lower (specHost n)
+
+/-- C08's "letter case does not matter" (`Props.C08.split_case_insensitive`: two non-special
+hostnames that differ in ASCII letter case only get the same split), at the hostname of this
+netloc -/
+def SplitCaseInv (n : Str) : Prop :=
+  ∀ h', lower h' = lower (pyHostname n) → isSpecialHost h' = false →
+    isSpecialHost (pyHostname n) = false → splitSuffix h' = splitSuffix (pyHostname n)
 
 /-- both hosts have the same public suffix (or none has one) -/
 def SameSuffixSplit (nu nv : Str) : Prop :=
-  (splitSuffixParsed splitSuffix nu = none ∧ splitSuffixParsed splitSuffix nv = none) ∨
-  ∃ du dv s, splitSuffixParsed splitSuffix nu = some (du, s) ∧
-    splitSuffixParsed splitSuffix nv = some (dv, s)
+  (hostSplit splitSuffix nu = none ∧ hostSplit splitSuffix nv = none) ∨
+  ∃ du dv s, hostSplit splitSuffix nu = some (du, s) ∧
+    hostSplit splitSuffix nv = some (dv, s)
 
 end
 
